@@ -18,6 +18,9 @@ pub use toplevel::{check_file, check_file_with_env};
 pub struct Typer {
     pub uni: InPlaceUnificationTable<TypeVar>,
     pub(crate) constraints: Vec<Constraint>,
+    /// Operand types of built-in operators, checked once inference has
+    /// resolved them: (operator, operand type, strings allowed).
+    pub(crate) operand_checks: Vec<(&'static str, crate::tast::Ty, bool)>,
     pub hir_table: name_resolution::HirTable,
     pub results: TypeckResultsBuilder,
 }
@@ -28,6 +31,7 @@ impl Typer {
         Self {
             uni: InPlaceUnificationTable::new(),
             constraints: Vec::new(),
+            operand_checks: Vec::new(),
             hir_table,
             results,
         }
